@@ -17,3 +17,21 @@ def fixture_prog(name, flags=()):
     p.add_unit(extract_file(os.path.join(VERIF, 'fixtures', name), flags))
     _cache[key] = p
     return p
+
+
+def generic_fixture(ctx, checks):
+    """positive controls for generic rules: run each (rule name, callable(fctx, prog)) on fixtures/generic_pos.c and require that exactly the
+    bad_* function of that rule is reported (good_* stays silent).  Registers the outcome with ctx.fixture (a fixture that does not fire makes
+    the whole check ANALYSIS-BROKEN)."""
+    fp = fixture_prog('generic_pos.c')
+    fp.lib_fns = fp.all_fns
+    for rule, fn, want in checks:
+        fctx = type(ctx)(ctx.pid, ctx.tier, fp)
+        fctx.rule(rule, '')
+        try:
+            fn(fctx, fp)
+            got = sorted({f['key'].split(':')[1] for f in fctx.findings if f['rule'] == rule})
+        except Exception as e:      # noqa
+            got = ['exception: %s' % e]
+        ctx.fixture(rule, got == [want], 'fixtures/generic_pos.c: %s must be reported, its good_ twin must not (got %s)' % (want, got))
+
